@@ -5,14 +5,15 @@ NOTES = ("Every check re-compiles coq/theories/Properties/<id>.v (theorems over 
 NOT_APPLICABLE = {}
 CLAIMS = {
     "C07": {
-        "text": "Theorems over the Fetch model for every env and canon (18, closed under the global context) on D07 (distinct dot-free entry names; nested multiples and further master "
+        "text": "Theorems over the Fetch model for every env and canon (20, closed under the global context) on D07 (distinct dot-free entry names; nested multiples and further master "
                 "occurrences allowed; no deprecated; stable choices; $-free) under the single oracle hypothesis H_default_canonical (for each .multiple entry k, canon of k fetched against "
                 "itself = canon the master reports for k): re-fetching a result as an object is a fixed point; a master copy, the master object itself (Python's identity skip modelled), or "
                 "any master-like first source change nothing (equality of outcomes incl. errors); fetching nothing = fetching the master; any history of such cycles leaves W unchanged; "
                 "canon-free versions for masters without multiples. Refutations by witness exactly where the library fails: F7a (H_default_canonical false on nested non-canonical "
                 "defaults), F7d (single-alternative choice). The TEXT form is proved too (C07_refetch_text, composing C07_refetch, the print/parse round trip of C01 and a "
                 "line-insensitive strengthening of C05's observational lemma): fetching parse(print W) gives W up to the line numbers of value words and with identical printed forms, "
-                "for masters without hidden templates, canon blind to word lines, and the shown part of W in the printer/parser round-trip domain (hypothesis, evaluated in the Example). "
+                "for masters without hidden templates and canon blind to word lines; for PARSED masters and sources (no .multiple/disabled object under a dotted prefix, printable choice "
+                "alternatives) printing, parsing and re-fetching are proved to succeed (C07_refetch_text_parsed). Two obscure text-form counterexamples found by the proof are open findings. "
                 "PARTIAL: 'defaults as first source' is decided by the stream on every run.",
         "note": "Trusted as C04 (Fetch model, canon oracle recorded per fetch call, identity probes for nested multiples). in_domain evaluates D07 incl. H_default_canonical through the "
                 "library's own extract_format on every case.",
@@ -81,13 +82,14 @@ CLAIMS = {
                 "tmp marks and alias paths not modelled.",
     },
     "C13": {
-        "text": "Theorems over the Include model (12, closed under the global context): includes = tree-level inlining (sound and complete against an inductive expansion spec; iff when "
+        "text": "Theorems over the Include model (14, closed under the global context): includes = tree-level inlining (sound and complete against an inductive expansion spec; iff when "
                 "the reachable include graph is acyclic, diamonds allowed); every reachable cycle is reported as 'Include dependency cycle' with a genuine chain of include edges ending "
                 "in a repeated file, never an unbounded recursion; no false cycle; termination for every finite file table; relative names resolve against the including file's directory, "
                 "independent of the current directory. TEXT-level clause: the parser is compositional at object boundaries (parse (a ++ b) = parse a ++ parse b up to ids and lines, "
                 "with the exact boundary conditions), one include line commutes with inlining, and for files made of plain pieces and TOP-LEVEL include lines the include-processed tree "
-                "is the parse of the recursively inlined text at any depth (C13_includes_text_toplevel_partial). PARTIAL: include lines inside scopes (text level) are evaluated by the "
-                "oracle on the implementation; 'include scope' is an oracle (unmodelled).",
+                "is the parse of the recursively inlined text at any depth (C13_includes_text_toplevel_partial), and likewise for include lines inside scopes at any nesting depth for "
+                "files given as segment trees (C13_includes_text_scopes_partial; scopes holding an include laid out line-wise, no header attributes). PARTIAL: other layouts of "
+                "such scopes are evaluated by the oracle on the implementation; 'include scope' is an oracle (unmodelled).",
         "note": "Trusted: Coq kernel, extraction, driver, harness, hand-written model of parse(process_includes)/process_includes and posixpath join/normpath/dirname/abspath "
                 "(validated against os.path on 18k/72k paths); the file system + parser are one oracle table built by the real parser.",
     },
